@@ -12,6 +12,9 @@ DEPTH = {
     "refresh": (5, 7), "refresh2": (7, 9), "refreshfail": (8, 10), "fallback": (5, 6), "fallbackrefresh": (5, 6),
     "rr": (5, 6), "rrrefresh": (6, 7), "faults": (5, 7), "faultsfb": (4, 6), "config0": (5, 7), "config1": (4, 6),
     "resolver": (6, 8), "spanner": (0, 0),
+    # depth counts the free inputs after the preamble
+    "deep-aff": (5, 6), "deep-affref": (5, 6), "deep-refbound": (5, 6), "deep-load": (6, 8), "deep-fb": (5, 6),
+    "deep-refresh": (5, 7), "deep-rr": (4, 5),
 }
 SIM = {"quick": (120, 25), "thorough": (1500, 40)}
 
@@ -53,6 +56,9 @@ def run(pid, tier, seed):
         for f in fams:
             qd, td = DEPTH[f]
             depth = qd if tier == "quick" else td
+            prelen = [0, 2, 3, 4, 5, 4, 5][pool.FAMILIES[f].get("Pre", 0)]
+            if depth:
+                depth += prelen
             simn, simd = SIM[tier]
             if f == "spanner":
                 simn, simd = (150, 40) if tier == "quick" else (3000, 60)
